@@ -77,6 +77,8 @@ type leaseFacade struct {
 	// the REPLY of the k-th renewal call can be held back: the call has taken effect in the store, the library
 	// has not seen its result yet
 	delReplyLost int32 // the reply of the next Delete is lost (the Delete itself is applied)
+	holdDelReply  int32 // the next Delete takes effect at once, its reply arrives delReplyDelay later
+	delReplyDelay time.Duration
 	holdDel      int32 // the next Delete is held back before it reaches the store
 	delArrived   chan struct{}
 	delGo        chan struct{}
@@ -159,6 +161,9 @@ func (f *leaseFacade) Delete(ctx context.Context, key string) error {
 	f.s.mu.Unlock()
 	if lost {
 		return errInjected
+	}
+	if atomic.CompareAndSwapInt32(&f.holdDelReply, 1, 0) {
+		time.Sleep(f.delReplyDelay) // the Delete took effect; its reply is slow
 	}
 	return err
 }
@@ -673,6 +678,46 @@ func runLeaseScenario(sc leaseScenario) (*leaseSys, bool) {
 			waiter.locker.Unlock()
 			s.log(map[string]any{"e": "unlocked", "p": 3})
 		}
+	case "sharedhandoff":
+		// Two goroutines share ONE Locker: the second one waits in LockWithCtx while the first holds.  The reply of the
+		// Unlock's Delete is slow (the Delete itself is applied at once).  Whenever the second goroutine gets the lock,
+		// it holds it from then on: its record must be kept for two lease periods, nobody else acquires.
+		ctx, cancel := context.WithTimeout(context.Background(), time.Duration(8*ttl)*time.Microsecond+5*time.Second)
+		done := make(chan error, 1)
+		go func() {
+			err := holder.locker.LockWithCtx(ctx)
+			if err == nil {
+				s.log(map[string]any{"e": "acq", "p": 1})
+			}
+			done <- err
+		}()
+		observe(t0+int64(4+sc.Phase)*ttl/8, true)
+		holder.fac.delReplyDelay = time.Duration(ttl/4) * time.Microsecond
+		atomic.StoreInt32(&holder.fac.holdDelReply, 1)
+		s.log(map[string]any{"e": "rel", "p": 1})
+		holder.locker.Unlock()
+		s.log(map[string]any{"e": "unlocked", "p": 1})
+		var err error
+		select {
+		case err = <-done:
+		case <-time.After(time.Duration(2*ttl)*time.Microsecond + 3*time.Second):
+			err = context.DeadlineExceeded
+		}
+		cancel()
+		if err != nil {
+			s.log(map[string]any{"e": "reacqfail", "p": 1})
+			break
+		}
+		observe(s.now()+2*ttl, true)
+		s.log(map[string]any{"e": "rel", "p": 1})
+		holder.locker.Unlock()
+		s.log(map[string]any{"e": "unlocked", "p": 1})
+		observe(s.now()+ttl, false)
+		ok := contender.locker.TryLock(context.Background())
+		s.log(map[string]any{"e": "freetry", "p": 2, "ok": ok})
+		if ok {
+			contender.locker.Unlock()
+		}
 	case "death":
 		// a waiter blocks in LockWithCtx before the holder dies
 		if sc.Phase%2 == 0 {
@@ -781,6 +826,8 @@ func driveLease(opt *Options) error {
 			scs = append(scs, leaseScenario{Kind: "handoff", TTL: ttl, Phase: 6, Mix: 2})
 			scs = append(scs, leaseScenario{Kind: "handoff", TTL: ttl, Phase: 2, Mix: 2})
 			scs = append(scs, leaseScenario{Kind: "delreplylost", TTL: ttl})
+			scs = append(scs, leaseScenario{Kind: "sharedhandoff", TTL: ttl, Phase: 2})
+			scs = append(scs, leaseScenario{Kind: "sharedhandoff", TTL: ttl, Phase: 4})
 			// hand-off while the reply of the old holder's renewal is in flight
 			scs = append(scs, leaseScenario{Kind: "slowreply", TTL: ttl, Periods: 1, Phase: 2})
 			scs = append(scs, leaseScenario{Kind: "slowreply", TTL: ttl, Periods: 2, Phase: 2})
@@ -809,6 +856,7 @@ func driveLease(opt *Options) error {
 			scs = append(scs, leaseScenario{Kind: "hold", TTL: ttl, Periods: 5, Down: true})
 			scs = append(scs, leaseScenario{Kind: "slowreply", TTL: ttl, Periods: 1, Phase: 3})
 			scs = append(scs, leaseScenario{Kind: "unlockmid", TTL: ttl})
+			scs = append(scs, leaseScenario{Kind: "sharedhandoff", TTL: ttl, Phase: 2})
 			// every other renewal call fails transiently, over a long hold
 			scs = append(scs, leaseScenario{Kind: "hold", TTL: ttl, Periods: 10, FaultAt: -1, Fault: "lost"})
 			for ph := 0; ph < 8; ph++ {
